@@ -606,6 +606,9 @@ func zzArmedChan[T any](c chan T) bool  { panic("spec only") }
 //@ func (replyRegistry).route
 //@ emits chan.send
 //@ nosafety nil-deref nil-iface
+//@ ensures [lookup] zzCalls("github.com/puzpuzpuz/xsync/v3.(*MapOf).Load") == 1 && zzArg[[4]byte]("github.com/puzpuzpuz/xsync/v3.(*MapOf).Load", 0) == key && zzCalls("github.com/puzpuzpuz/xsync/v3.(*MapOf).Delete") == 0 &&
+//@                  zzCalls("github.com/puzpuzpuz/xsync/v3.(*MapOf).LoadAndDelete") == 0 && zzCalls("github.com/puzpuzpuz/xsync/v3.(*MapOf).Store") == 0 && zzCalls("github.com/puzpuzpuz/xsync/v3.(*MapOf).LoadOrStore") == 0 && zzCalls("github.com/puzpuzpuz/xsync/v3.(*MapOf).Compute") == 0
+//@ ensures [deliver] zzCalls("chan.send") <= 1 && (zzCalls("chan.send") == 1 ==> result)
 //@ requires zzChanInv_replyResult(res)
 
 //@ func (*connection).RouteReply
